@@ -3,7 +3,7 @@ sys.path.insert(0, os.path.dirname(os.path.abspath(__file__)))
 from _util import c
 
 CHECKS = {
-    "C29": c("pocketpure", "TestC29", dict(checks=3000, timeout=400), dict(checks=12000, shards=14, timeout=1500),
+    "C29": c("pocketpure", "TestC29", dict(checks=2000, timeout=400), dict(checks=12000, shards=14, timeout=1500),
              technique="property-based testing (rapid): generated relay sets -> GenerateRoot / GenerateProofs -> MerkleProof.Validate round trip, "
                        "shuffle metamorphic relation on the root, evidence path with the max-relays cut",
              design_ref="DESIGN.md §7 C29",
@@ -11,7 +11,7 @@ CHECKS = {
                         "both parent-hash formats selected through the real codec globals; exploration only: sizes above 300 and challenge-proof leaves are not generated.",
              level_note="Generation and verification are two code paths of the same package (round trip), so a mistake shared by both (e.g. the same wrong hash input on both sides) is invisible; "
                         "the level count is restated as ceil(log2 n) exactly as ValidateProof computes it. Trusts blake2b/sha3 and rapid."),
-    "C30": c("pocketpure", "TestC30", dict(checks=4000, timeout=400), dict(checks=20000, shards=14, timeout=1500),
+    "C30": c("pocketpure", "TestC30", dict(checks=3000, timeout=400), dict(checks=20000, shards=14, timeout=1500),
              technique="mutation-based property testing (rapid): every single-field mutation of a valid (root, proof, leaf) triple must fail MerkleProof.Validate; "
                        "duplicate-relay multisets against a hash-free model of empty ranges; replay path through a real keeper and message handler with stub pos/apps keepers",
              design_ref="DESIGN.md §7 C30",
@@ -29,7 +29,7 @@ CHECKS = {
              level_note="'Known to a tx author' is modelled as: a tx included in block h is authored knowing the hashes of all blocks < h (block h's header carries hash(h-1)). "
                         "Acceptance = ValidateClaim on the DeliverTx context of block h; entropy block = the unique block whose hash passes ValidateProof's index check under the documented "
                         "seed construction. pos/apps keepers are stubs (one node, session node count 1). Windows w<2 are rejected by params validation and not enumerated."),
-    "C33": c("pocketpure", "TestC33", dict(checks=20000, timeout=400), dict(checks=60000, shards=14, timeout=1500),
+    "C33": c("pocketpure", "TestC33", dict(checks=15000, timeout=400), dict(checks=60000, shards=14, timeout=1500),
              technique="property-based testing (rapid) of NewSession/NewSessionNodes against a data-only PosKeeper stub with a constructed eligible/ineligible population; "
                        "set-membership oracle, determinism by re-execution, generous deadline for termination",
              design_ref="DESIGN.md §7 C33",
